@@ -409,13 +409,43 @@ static AddOutcome do_add(Exec& ex, Crystal_Array* arr, ArrayModel* m, const Crys
   return out;
 }
 
-// String arguments reach the library in a heap block of exactly strlen+1 bytes: a read one byte before the first or
-// past the terminating NUL then lands in an ASan redzone.  (std::string keeps short strings inside the object and
-// longer ones in blocks with spare capacity, where such a read would go unnoticed.)
+// String arguments reach the library in a block of exactly strlen+1 bytes: a read one byte before the first or past
+// the terminating NUL then lands in an ASan redzone.  (std::string keeps short strings inside the object and longer
+// ones in blocks with spare capacity, where such a read would go unnoticed.)
+// Default: a fresh heap block per argument (exact on both sides; the address never repeats because of ASan's
+// quarantine).  In allocator-reuse runs (plan field `reuse`): the caller "reuses its buffer" -- the string is
+// right-aligned against the end of one fixed arena per (task, argument position), the rest of the arena is poisoned.
+// Strings of equal length then have equal addresses, which is what exposes state keyed on a caller's pointer; the
+// byte after the NUL is still a redzone (the bytes before the string only down to the 8-byte granule boundary).
+extern "C" void __asan_poison_memory_region(void const volatile* addr, size_t size);
+extern "C" void __asan_unpoison_memory_region(void const volatile* addr, size_t size);
 struct ExactStr {
+  enum { ARENA = 8192, RZ = 64 };
   char* p = nullptr;
-  ExactStr(const char* s, size_t n, bool null) { if (!null) { p = (char*)malloc(n + 1); memcpy(p, s, n); p[n] = 0; } }
-  ~ExactStr() { free(p); }
+  bool pooled = false;
+  size_t len = 0;
+  static char* arena(int task, int which) {
+    static char* a[MAXTASK][3];
+    char*& r = a[task % MAXTASK][which % 3];
+    if (!r) { r = (char*)aligned_alloc(64, ARENA + RZ); __asan_poison_memory_region(r, ARENA + RZ); }
+    return r;
+  }
+  ExactStr(const char* s, size_t n, bool null, int which) : len(n) {
+    if (null) return;
+    if (g_reuse_mode && n + 1 <= ARENA) {
+      char* a = arena(t_task ? t_task->id : 0, which);
+      p = a + ARENA - (n + 1);
+      pooled = true;
+      __asan_unpoison_memory_region(p, n + 1);
+    } else p = (char*)malloc(n + 1);
+    memcpy(p, s, n);
+    p[n] = 0;
+  }
+  ~ExactStr() {
+    if (!p) return;
+    if (pooled) { memset(p, '~', len + 1); __asan_poison_memory_region(p - ((uintptr_t)p & 7), len + 1 + ((uintptr_t)p & 7)); }
+    else free(p);
+  }
   ExactStr(const ExactStr&) = delete;
   ExactStr& operator=(const ExactStr&) = delete;
 };
@@ -435,7 +465,7 @@ void Exec::run_op(const Op& op) {
   Crystal_Array* touched = nullptr;
   ArrayModel* touched_model = nullptr;
   bool touched_modified = false;
-  ExactStr xs_nullable(op.s.data(), op.s.size(), op.snull), xs_always(op.s.data(), op.s.size(), false);
+  ExactStr xs_nullable(op.s.data(), op.s.size(), op.snull, 0), xs_always(op.s.data(), op.s.size(), false, 1);
   const char* const S = xs_nullable.p;    // NULL when the op asks for a NULL string
   const char* const S0 = xs_always.p;
   if (op.fail) arm_alloc_fault(op.fail);
@@ -722,7 +752,7 @@ void Exec::run_op(const Op& op) {
       else if (wf && !truncated && !eio_hits && !vf.unseekable && !collide) { cls = MUST_OK; why = "well-formed file, no fault"; }
       else { cls = EITHER; why = "outside the strict dialect / benign fault"; }
       int before_n = actual->n_crystal;
-      ExactStr fname_x(nm, strlen(nm), op.fs.name_null != 0);
+      ExactStr fname_x(nm, strlen(nm), op.fs.name_null != 0, 2);
       int ret = Crystal_ReadFile(fname_x.p, arr, ep);
       g.i32(ret);
       failed_sentinel = ret == 0;
